@@ -98,3 +98,23 @@ Section SkipReal.
                      else skip_real r true
     end.
 End SkipReal.
+
+(* ---- which elements BRAIN reads faithfully (decided on the table, in integers) ---- *)
+(* coefficient extraction at the integer interpretation: abundances in micro-units, `one` = 1 *)
+Definition NumZmicro : Num Z :=
+  mkNum Z 0%Z 1%Z 0%Z Z.add Z.sub Z.mul Z.div Z.opp Z.abs (fun a b c => (a * b + c)%Z)
+        (fun z => z) (fun num _ => num) Z.ltb Z.leb Z.eqb (fun _ => true) (fun _ => false).
+
+(* the element's true abundance polynomial: coefficient d = abundance (micro) of the isotope d neutrons above the
+   lightest one, 0 where the ladder has a gap *)
+Definition true_poly (e : elem) : list Z :=
+  map (fun d => match find (fun p => (TableModel.shift (snd p) =? min_shift e + Z.of_nat d)%Z) (isos e) with
+                | Some p => TableModel.ab (snd p) | None => 0%Z end)
+      (seq 0 (Z.to_nat (max_shift e - min_shift e + 1))).
+
+(* faithful: the polynomial the code extracts is the true one, and it is based on the lightest isotope *)
+Definition faithful (e : elem) : bool :=
+  match coeffs NumZmicro e false with
+  | Some acc => (if list_eq_dec Z.eq_dec (rev acc) (true_poly e) then true else false) && (min_shift e =? 0)%Z
+  | None => false
+  end.
